@@ -67,6 +67,11 @@ CHECKS['C13'] = ('§3 C13', 'R02b tail repair of the transaction log on reopen, 
                  'logs and what recovery restores (with lock handles), R13b recovery consumes every list its classification fills',
                  'MIR reachability under a phase assumption, writer/reader table agreement, field read/write sets')
 
+CHECKS['C15'] = ('§3 C15', 'R15a precedence and associativity decided from the two binding-power tables, the documented level tables, the '
+                 'token→operator map and the shape of both Pratt loops (a proof over a finite table), R15b every recursion cycle '
+                 'reachable from the parse entry points passes a depth-guard function, R15c every statement kind is dispatched to an arm '
+                 'that reaches a call',
+                 'table extraction from MIR switches, call-graph SCCs, doc-table agreement')
 CHECKS['C16'] = ('§3 C16', 'R16a append stores a block only after must-pass checks of height, predecessor hash, tx root and signature, and the '
                  'full-chain verifier checks the same set per block; R16b append is one critical section under append_lock; R16c the '
                  'store pre-image of a commit is taken and restored under one lock and every failed append restores it; R16d the state '
